@@ -592,6 +592,25 @@ pub fn correlate_px(px: &mut [[f32; 3]], seed: u64, feedback: Option<&dyn Fn([f3
                     px[i] = r;
                 }
             }
+            9 => {
+                // exposure change: the previous pixel scaled by a power of two (exact in binary floating point, so
+                // ratios between components - hue, saturation below mid lightness, chroma direction - stay bit-identical)
+                let k = [0.5f32, 0.25, 2.0, 4.0, 0.125][e.below(5) as usize];
+                let q = [prev[0] * k, prev[1] * k, prev[2] * k];
+                if in_domain(q) {
+                    px[i] = q;
+                }
+            }
+            10 => {
+                // same mid-point (max+min)/2, half the spread: lightness and hue stay, saturation halves
+                let mx = prev[0].max(prev[1]).max(prev[2]);
+                let mn = prev[0].min(prev[1]).min(prev[2]);
+                let m = (mx + mn) / 2.0;
+                let q = [m + (prev[0] - m) / 2.0, m + (prev[1] - m) / 2.0, m + (prev[2] - m) / 2.0];
+                if in_domain(q) {
+                    px[i] = q;
+                }
+            }
             8 => {
                 // alternation A B A: the pixel before the previous one comes back
                 if i >= 2 {
